@@ -7,6 +7,7 @@
      D.<c>        disconnect      T.<d>   d ms pass
      R.<c>.<serial>.<name>.<flags>   RequestName (bit0 allow_replacement, bit1 replace_existing, bit2 do_not_queue)
      L.<c>.<serial>.<name>           ReleaseName
+     H.<c>   c's socket is closed and the bus's transport has seen EOF; D.<c> (Disconnected processed) follows later
      B.<c>   c stops reading and its queue at the bus is driven over max_outgoing_bytes      U.<c>   c reads again
      M.<c>.<serial>.<eavesdrop 0|1>.<type c|r|e|s|x>.<sender u<k>|n<k>|x>.<destination u<k>|n<k>|x>   AddMatch
    result: per step "-" (no output), "!" (ill-formed event) or outputs joined by "+":
@@ -42,6 +43,7 @@ let parse_event (tok : string) : event =
   | ["L"; c; s; n] -> EReleaseName (ni c, ni s, ni n)
   | ["B"; c] -> EBlock (ni c)
   | ["U"; c] -> EDrain (ni c)
+  | ["H"; c] -> EHangup (ni c)
   | ["M"; c; s; ev; ty; sd; ds] ->
       let od x = if x = "x" then None else
         let k = ni (String.sub x 1 (String.length x - 1)) in
